@@ -53,20 +53,53 @@ theorem run_step (g : Fn A V) (rest : List (Fn A V)) (ops : List V) (h : g.arity
 
 /-! ### extraction: code in execution order -/
 
+/-- the operand dispatch never drops the composition of a view: for every operand kind it yields exactly the operand's
+    own composition (empty for host arrays, aliases and literals) -/
+theorem View.dispatch_compile (v : View A V) : v.dispatch v.compile = v.compile := by
+  cases v <;> simp [View.dispatch, View.isAlias, View.isView, View.compile]
+
+theorem View.isLeaf_compile : ∀ (v : View A V), v.isLeaf = true → v.compile = []
+  | .leaf _, _ => rfl
+  | .alias _, _ => rfl
+  | .lit _, _ => rfl
+  | .node .., h => by simp [View.isLeaf] at h
+  | .snode .., h => by simp [View.isLeaf] at h
+
+theorem View.isLeaf_denote (env : Nat → V) : ∀ (v : View A V), v.isLeaf = true → [v.denote env] = v.operandsOf.map env
+  | .leaf _, _ => rfl
+  | .alias _, _ => rfl
+  | .lit _, _ => rfl
+  | .node .., h => by simp [View.isLeaf] at h
+  | .snode .., h => by simp [View.isLeaf] at h
+
+theorem View.isLeaf_operands : ∀ (v : View A V), v.isLeaf = true → v.operandsOf.length = 1
+  | .leaf _, _ => rfl
+  | .alias _, _ => rfl
+  | .lit _, _ => rfl
+  | .node .., h => by simp [View.isLeaf] at h
+  | .snode .., h => by simp [View.isLeaf] at h
+
+theorem View.isLeaf_wellFormed : ∀ (v : View A V), v.isLeaf = true → v.wellFormed = true
+  | .leaf _, _ => rfl
+  | .alias _, _ => rfl
+  | .lit _, _ => rfl
+  | .node .., h => by simp [View.isLeaf] at h
+  | .snode .., h => by simp [View.isLeaf] at h
+
 theorem allLeaves_compileRev : ∀ (r : Args A V), r.allLeaves = true → Args.compileRev r = []
   | .nil, _ => rfl
-  | .cons (.leaf _) rest, h => by
-      simp only [Args.allLeaves] at h
-      simp [Args.compileRev, View.compile, allLeaves_compileRev rest h]
-  | .cons (.node ..) _, h => by simp [Args.allLeaves] at h
+  | .cons v rest, h => by
+      simp only [Args.allLeaves, Bool.and_eq_true] at h
+      rw [Args.compileRev, View.dispatch_compile, View.isLeaf_compile v h.1, allLeaves_compileRev rest h.2]; rfl
 
 theorem allLeaves_denote (env : Nat → V) : ∀ (r : Args A V), r.allLeaves = true →
     Args.denote env r = (Args.operandsOf r).map env
   | .nil, _ => rfl
-  | .cons (.leaf _) rest, h => by
-      simp only [Args.allLeaves] at h
-      simp [Args.denote, View.denote, Args.operandsOf, View.operandsOf, allLeaves_denote env rest h]
-  | .cons (.node ..) _, h => by simp [Args.allLeaves] at h
+  | .cons v rest, h => by
+      simp only [Args.allLeaves, Bool.and_eq_true] at h
+      have := View.isLeaf_denote env v h.1
+      simp only [Args.denote, Args.operandsOf, List.map_append, allLeaves_denote env rest h.2, ← this]
+      rfl
 
 theorem Args.denote_length (env : Nat → V) : ∀ (r : Args A V), (Args.denote env r).length = r.length
   | .nil => rfl
@@ -79,7 +112,9 @@ theorem View.run_compile (env : Nat → V) : ∀ (v : View A V) (K : List (Fn A 
     v.leftLinear = true →
     run (v.compile.reverse ++ K) (v.operandsOf.map env ++ rest) = run K (v.denote env :: rest)
   | .leaf i, K, rest, _ => by simp [View.compile, View.operandsOf, View.denote]
-  | .node f ats args, K, rest, h => by
+  | .alias i, K, rest, _ => by simp [View.compile, View.operandsOf, View.denote]
+  | .lit i, K, rest, _ => by simp [View.compile, View.operandsOf, View.denote]
+  | .node f ats args, K, rest, h | .snode f ats args, K, rest, h => by
       simp only [View.leftLinear, Bool.and_eq_true, beq_iff_eq] at h
       have ih := Args.run_compile env args ([⟨f.toFunctor, ats, []⟩] ++ K) rest h.2
       simp only [View.compile, View.operandsOf, View.denote, List.reverse_cons, List.append_assoc]
@@ -100,7 +135,7 @@ theorem Args.run_compile (env : Nat → V) : ∀ (args : Args A V) (K : List (Fn
   | .cons v r, K, rest, h => by
       simp only [Args.leftLinear, Bool.and_eq_true] at h
       have ih := View.run_compile env v K ((Args.operandsOf r).map env ++ rest) h.1
-      simp only [Args.compileRev, allLeaves_compileRev r h.2, List.nil_append, Args.operandsOf, List.map_append,
+      simp only [Args.compileRev, View.dispatch_compile, allLeaves_compileRev r h.2, List.nil_append, Args.operandsOf, List.map_append,
         List.append_assoc, Args.denote, allLeaves_denote env r h.2, List.cons_append]
       exact ih
 end
@@ -108,7 +143,9 @@ end
 mutual
 theorem View.leavesAcc_eq : ∀ (v : View A V) (acc : List Nat), v.leavesAcc acc = v.operandsOf ++ acc
   | .leaf i, acc => by simp [View.leavesAcc, View.operandsOf]
-  | .node _ _ args, acc => by simp [View.leavesAcc, View.operandsOf, Args.leavesAcc_eq args acc]
+  | .alias i, acc => by simp [View.leavesAcc, View.operandsOf]
+  | .lit i, acc => by simp [View.leavesAcc, View.operandsOf]
+  | .node _ _ args, acc | .snode _ _ args, acc => by simp [View.leavesAcc, View.operandsOf, Args.leavesAcc_eq args acc]
 theorem Args.leavesAcc_eq : ∀ (a : Args A V) (acc : List Nat), a.leavesAcc acc = a.operandsOf ++ acc
   | .nil, acc => by simp [Args.leavesAcc, Args.operandsOf]
   | .cons v r, acc => by
@@ -133,10 +170,9 @@ theorem Comp.arity_eq (fs : List (Fn A V)) (held : List V) :
 
 theorem allLeaves_length : ∀ (r : Args A V), r.allLeaves = true → (Args.operandsOf r).length = r.length
   | .nil, _ => rfl
-  | .cons (.leaf _) rest, h => by
-      simp only [Args.allLeaves] at h
-      simp [Args.operandsOf, View.operandsOf, Args.length, allLeaves_length rest h]; omega
-  | .cons (.node ..) _, h => by simp [Args.allLeaves] at h
+  | .cons v rest, h => by
+      simp only [Args.allLeaves, Bool.and_eq_true] at h
+      simp [Args.operandsOf, View.isLeaf_operands v h.1, Args.length, allLeaves_length rest h.2]
 
 mutual
 /-- (sum of the functor arities) + 1 = (number of leaves) + (number of functors): every functor but the outermost hands
@@ -144,7 +180,9 @@ mutual
 theorem View.sumArity_compile : ∀ (v : View A V), v.wellFormed = true →
     sumArity v.compile + 1 = v.operandsOf.length + v.compile.length
   | .leaf _, _ => by simp [View.compile, View.operandsOf, sumArity]
-  | .node f ats args, h => by
+  | .alias _, _ => by simp [View.compile, View.operandsOf, sumArity]
+  | .lit _, _ => by simp [View.compile, View.operandsOf, sumArity]
+  | .node f ats args, h | .snode f ats args, h => by
       simp only [View.wellFormed, Bool.and_eq_true, beq_iff_eq] at h
       have ih := Args.sumArity_compileRev args h.2
       have hc : sumArity (⟨f.toFunctor, ats, []⟩ :: Args.compileRev args) = f.arity + sumArity (Args.compileRev args) := by
@@ -158,14 +196,16 @@ theorem Args.sumArity_compileRev : ∀ (a : Args A V), a.wellFormed = true →
       simp only [Args.wellFormed, Bool.and_eq_true] at h
       have ih1 := View.sumArity_compile v h.1
       have ih2 := Args.sumArity_compileRev r h.2
-      simp only [Args.compileRev, Args.operandsOf, Args.length, sumArity_append, List.length_append]
+      simp only [Args.compileRev, View.dispatch_compile, Args.operandsOf, Args.length, sumArity_append, List.length_append]
       omega
 end
 
 mutual
 theorem View.leftLinear_wellFormed : ∀ (v : View A V), v.leftLinear = true → v.wellFormed = true
   | .leaf _, _ => rfl
-  | .node f ats args, h => by
+  | .alias _, _ => rfl
+  | .lit _, _ => rfl
+  | .node f ats args, h | .snode f ats args, h => by
       simp only [View.leftLinear, Bool.and_eq_true, beq_iff_eq] at h
       simp only [View.wellFormed, Bool.and_eq_true, beq_iff_eq]
       exact ⟨h.1, Args.leftLinear_wellFormed args h.2⟩
@@ -177,10 +217,24 @@ theorem Args.leftLinear_wellFormed : ∀ (a : Args A V), a.leftLinear = true →
       exact ⟨View.leftLinear_wellFormed v h.1, Args.allLeaves_wellFormed r h.2⟩
 theorem Args.allLeaves_wellFormed : ∀ (a : Args A V), a.allLeaves = true → a.wellFormed = true
   | .nil, _ => rfl
-  | .cons (.leaf _) r, h => by
-      simp only [Args.allLeaves] at h
-      simp [Args.wellFormed, View.wellFormed, Args.allLeaves_wellFormed r h]
-  | .cons (.node ..) _, h => by simp [Args.allLeaves] at h
+  | .cons v r, h => by
+      simp only [Args.allLeaves, Bool.and_eq_true] at h
+      simp [Args.wellFormed, View.isLeaf_wellFormed v h.1, Args.allLeaves_wellFormed r h.2]
+end
+
+mutual
+/-- one functor per operation of the view tree — array- and number-valued views alike — and none for anything else -/
+theorem View.compile_length : ∀ (v : View A V), v.compile.length = v.nOps
+  | .leaf _ => rfl
+  | .alias _ => rfl
+  | .lit _ => rfl
+  | .node f ats args | .snode f ats args => by
+      simp only [View.compile, View.nOps, List.length_cons, Args.compileRev_length args]; omega
+theorem Args.compileRev_length : ∀ (a : Args A V), (Args.compileRev a).length = a.nOps
+  | .nil => rfl
+  | .cons v r => by
+      simp only [Args.compileRev, View.dispatch_compile, List.length_append, Args.nOps, View.compile_length v,
+        Args.compileRev_length r]; omega
 end
 
 end NmVerif.Functional
